@@ -3,6 +3,6 @@
 ID=$1; CHK=$2; shift 2
 git -C /repo diff --quiet || { echo "/repo has local changes"; exit 2; }
 git -C /repo apply /verif/seeded/$ID/patch.diff || exit 2
-( cd /verif && ./vcheck $CHK "$@" ); RC=$?
+( cd /verif && VERIF_EVIDENCE_DIR=/verif/.scratch/evidence_seeded ./vcheck $CHK "$@" ); RC=$?
 git -C /repo checkout -- .
 echo "seeded=$ID check=$CHK exit=$RC"
